@@ -261,3 +261,44 @@ Lemma is_segwit_addr_false_iff s : is_segwit_addr s = Ok false <-> spec_decode s
 Proof.
   rewrite is_segwit_addr_spec. unfold valid_segwit. destruct (spec_decode s); split; intros H; congruence.
 Qed.
+
+(* ---------- the `bits bech32` command line entry point (model of __main__.py's branch) ---------- *)
+(* --decode reports a segwit address (network / witness_version / witness_program) exactly for the strings
+   BIP173/BIP350 define as valid segwit addresses, with the triple they define *)
+Theorem cli_decode_segwit_iff s h v p :
+  cli_bech32_decode s = Ok (CliSegwit h v p) <-> spec_decode s = Some (h, v, p).
+Proof.
+  unfold cli_bech32_decode. rewrite is_segwit_addr_spec. cbn [bind]. unfold valid_segwit.
+  destruct (spec_decode s) as [[[h' v'] p']|] eqn:SD.
+  - pose proof (proj2 (accept_iff_spec _ _) SD) as DV. apply decode_valid_parts in DV as (D & _).
+    destruct (spec_decode_facts _ _ _ _ SD) as (F & _). rewrite D. cbn [bind].
+    change [hrp_bc; hrp_tb; hrp_bcrt] with segwit_hrps. rewrite F. cbn [assert_ bind].
+    split; intros H; injection H as -> -> ->; reflexivity.
+  - split; [|discriminate]. destruct (decode_bech32_string s 1) as [[h' p']|]; cbn [bind]; discriminate.
+Qed.
+
+(* with --witness-version 0 the encoder is segwit_addr *)
+Theorem cli_encode_v0_is_segwit_addr net hrp data : In (net, hrp) networks ->
+  cli_bech32_encode hrp data (Some 0) false = segwit_addr data 0 net.
+Proof.
+  intros HN.
+  assert (E : segwit_addr data 0 net = bech32_encode hrp data (chars_slice 0) 1).
+  { unfold segwit_addr. change (in_range_Z 0 0 17) with true. change (0 =? 0) with true.
+    apply network_cases in HN as [[-> ->] | [[-> ->] | [-> ->]]].
+    - change (bytes_eqb net_mainnet net_mainnet) with true. reflexivity.
+    - change (bytes_eqb net_testnet net_mainnet) with false. change (bytes_eqb net_testnet net_testnet) with true.
+      reflexivity.
+    - change (bytes_eqb net_regtest net_mainnet) with false. change (bytes_eqb net_regtest net_testnet) with false.
+      change (bytes_eqb net_regtest net_regtest) with true. reflexivity. }
+  rewrite E. unfold cli_bech32_encode. destruct (bech32_encode hrp data (chars_slice 0) 1); reflexivity.
+Qed.
+
+(* for witness versions 1..16 it is NOT: the checksum constant stays 1 (Bech32) instead of Bech32m, so the
+   produced string is not a valid segwit address.  Witness: bits bech32 --hrp bc --wv 1 on 751e *)
+Theorem cli_encode_v1_refuted :
+  exists data a, cli_bech32_encode hrp_bc data (Some 1) false = Ok a
+                 /\ segwit_addr data 1 net_mainnet <> Ok a /\ spec_decode a = None /\ is_segwit_addr a = Ok false.
+Proof.
+  exists [x75; x1e]. eexists. split; [vm_compute; reflexivity|].
+  split; [vm_compute; discriminate|split; vm_compute; reflexivity].
+Qed.
